@@ -123,3 +123,426 @@ def c07_extra(rng, tier):
 def c13_extra(rng, tier):
     q = tier == "quick"
     return recover_convs(rng, 12 if q else 120, "C13-recover", endings=["finish_error"])
+
+
+# ------------------------------------------------------------------------------------------------
+def c01_extra(rng, tier):
+    out = []
+    # commands of five and more maximal fragments (> 80 MiB), with a second command pipelined behind
+    for i, (a, d) in enumerate([(5, 100)] if tier == "quick" else [(5, 100), (5, 0), (6, 3), (8, 1)]):
+        n = a * GB.PM + d
+        c = GB.BigConv("C01-frag%d-%+d" % (a, d), mode="pipelined", meta={"a": a, "d": d})
+        c.cmd_runs(GB.canon([[3, 1]] + GB.pattern_ascii(n - 1, i)), 0)
+        c.programs.append([op_completed(1, 0)])
+        c.small(com_query("after the giant"))
+        c.programs.append([op_completed(2, 0)])
+        c.small(com_ping())
+        c.small(com_quit())
+        out.append(c.build())
+    # COM_INIT_DB carries the schema name verbatim, whatever characters it is made of
+    names = [b"`db`", b"db;", b" db ", b"\tdb\n", b"``", b";", b"a`b", b"`a;b` ;", b"db name", b"  ", b"x" * 300]
+    for i in range(0, len(names), 4):
+        c = Conv("C01-initdb-%d" % i, mode=["lockstep", "pipelined"][(i // 4) % 2])
+        for nm in names[i:i + 4]:
+            c.init_db(nm, [op_init_ok()])
+        c.chunks, c.then = [3, 1, 2, 7], 5
+        c.ping()
+        c.quit()
+        out.append(c.build())
+    return out
+
+
+def c02_extra(rng, tier):
+    out = []
+    names = [b"`db`", b"db;", b" db ", b"``", b"a`b", b"db name", b"d\xc3\xa9j\xc3\xa0`;"]
+    c = Conv("C02-initdb-verbatim", mode="pipelined")
+    for nm in names:
+        c.init_db(nm, [op_init_ok()])
+    c.ping()
+    c.quit()
+    out.append(c.build())
+    return out
+
+
+def c03_wide(rng, tier):
+    """binary rows whose column count sits at a NULL-bitmap byte boundary, NULLs in the last columns"""
+    out = []
+    for i, ncol in enumerate([6, 7, 8, 9, 14, 15, 16, 17, 22, 23, 24, 25]):
+        cols = [col("c%d" % j, [T_LONG, T_VAR_STRING, T_TINY][j % 3]) for j in range(ncol)]
+
+        def row(nulls):
+            return [v_none("u8") if j in nulls else (v_int("i32", 1000 + j) if j % 3 == 0 else v_bytes(bytes([97 + j % 26]) * (j % 4 + 1), "str") if j % 3 == 1 else v_int("i8", j))
+                    for j in range(ncol)]
+        ops = [op_start(cols), op_write_row(row(set())), op_write_row(row({ncol - 1})), op_write_row(row({ncol - 2})),
+               op_write_row(row({ncol - 2, ncol - 1, 0})), op_write_row(row(set(range(ncol)))), op_finish()]
+        c = Conv("C03-wide3-%02d" % ncol, mode=["lockstep", "pipelined"][i % 2])
+        c.prepare("S", prep_ok(1, [], cols))
+        c.execute(1, [], ops)
+        c.ping()
+        c.quit()
+        out.append(c.build())
+    return out
+
+
+def c04_extra(rng, tier):
+    out = []
+    # a binary row whose values exceed 16 MiB, with NULLs and small values AFTER the giant one
+    shapes = [("big_small_null", lambda b: [b, GB.vbig(GB.pattern(5, 1)), GB.vnull()]),
+              ("big_null", lambda b: [b, GB.vnull()]),
+              ("null_big_null_small", lambda b: [GB.vnull(), b, GB.vnull(), GB.vbig(GB.pattern(9, 2))])]
+    for i, (name, mk) in enumerate(shapes):
+        for k, n in enumerate([GB.PM + 5, 2 * GB.PM - 20] if tier != "quick" else [GB.PM + 5]):
+            vals = mk(GB.vbig(GB.pattern(n, i + k)))
+            cols = [GB.rcol("c%d" % j) for j in range(len(vals))]
+            c = GB.BigConv("C04-binnull-%s-%d" % (name, k), mode="lockstep")
+            c.small(com_prepare("S"))
+            c.prepares.append({"id": le4(1), "params": [], "cols": []})
+            c.small(com_execute(1, []))
+            c.programs.append([op_start(cols), op_write_row(vals), op_write_row([GB.vbig(GB.pattern(3, j)) for j in range(len(vals))]), op_finish()])
+            c.small(com_ping())
+            c.small(com_quit())
+            out.append(c.build())
+    # a row of exactly k*(2^24-1) bytes that is ended implicitly (finish / finish_one / finish_error / drop)
+    for i, ending in enumerate(["finish", "finish_one", "finish_error", "drop"]):
+        n = GB.cell_len_for_total(GB.PM)
+        c = GB.BigConv("C04-exact-implicit-%s" % ending, mode="lockstep")
+        c.small(com_query("Q"))
+        ops = [op_start([GB.rcol("a")]), op_write_col(GB.vbig(GB.pattern(n, i)))]
+        if ending == "finish":
+            ops.append(op_finish())
+        elif ending == "finish_one":
+            ops += [op_finish_one(), op_completed(1, 2)]
+        elif ending == "finish_error":
+            ops.append({"op": "finish_error", "kind": "ER_NO", "msg": GB.lit(b"late")})
+        else:
+            ops.append(op_drop())
+        c.programs.append(ops)
+        c.small(com_ping())
+        c.small(com_quit())
+        out.append(c.build())
+    return out
+
+
+def c05_extra(rng, tier):
+    from .gens import tls_conv
+    out = []
+    for i, (auth, mode) in enumerate([("accept", "lockstep"), ("reject", "lockstep"), ("accept", "pipelined"), ("reject", "pipelined")]):
+        c = tls_conv("C05-tls-%s-%d" % (auth, i), rng, mode=mode, auth=auth, ncmd=3 if auth == "accept" else 1)
+        out.append(c.build())
+    return out
+
+
+def c06_extra(rng, tier):
+    out = []
+    # a giant row that is not a multiple of 2^24-1, followed by another resultset on the same connection
+    for i, total in enumerate([GB.PM + 300] if tier == "quick" else [GB.PM + 300, 2 * GB.PM + 1]):
+        c = GB.BigConv("C06-bigthen-%d" % i, mode="lockstep")
+        n = GB.cell_len_for_total(total)
+        c.small(com_query("Q1"))
+        c.programs.append([op_start([GB.rcol("a")]), op_write_row([GB.vbig(GB.pattern(n, i))]), op_finish()])
+        c.small(com_query("Q2"))
+        c.programs.append([op_start([GB.rcol("a"), GB.rcol("b")]), op_write_row([GB.vbig(GB.pattern(7, 1)), GB.vnull()]),
+                           op_write_row([GB.vbig(GB.pattern(0, 1)), GB.vbig(GB.lit(b"NULL"))]), op_finish()])
+        c.small(com_ping())
+        c.small(com_quit())
+        out.append(c.build())
+    # a transport that accepts only part of each write (io::Write allows it): rows larger than one write
+    for i, sw in enumerate([[16384], [1000, 1], [4096, 3, 70000], [65536]]):
+        c = Conv("C06-shortwr-%d" % i, mode=["lockstep", "pipelined"][i % 2])
+        c.short_writes = sw
+        cols = [col("a", T_VAR_STRING), col("b", T_LONGLONG), col("c", T_BLOB)]
+        big = bytes((j * 7 + i) % 256 for j in range(70000))
+        c.query("Q", [op_start(cols),
+                      op_write_row([v_bytes(b"x", "str"), v_int("i64", -2 ** 63), v_none("str")]),
+                      op_write_row([v_none("u8"), v_int("i64", 5), v_bytes(big, "vec")]),
+                      op_write_row([v_bytes(b"NULL", "str"), v_int("i64", 2 ** 63 - 1), v_bytes(b"", "bytes")]),
+                      op_finish()])
+        c.query("Q2", [op_start(cols[:2]), op_write_row([v_bytes(b"after", "str"), v_int("i64", 1)]), op_finish()])
+        c.ping()
+        c.quit()
+        out.append(c.build())
+    # chains: rows, finish_one, then a completion / another resultset / an error
+    for i, tail in enumerate(["completed", "start", "error", "complete_one"]):
+        cols = [col("a", T_VAR_STRING)]
+        rows = [op_write_row([v_bytes(b"x", "str")]), op_write_row([v_none("str")]), op_write_row([v_bytes(b"", "str")]), op_write_row([v_bytes(b"NULL", "str")])]
+        ops = [op_start(cols)] + rows + [op_finish_one()]
+        if tail == "completed":
+            ops.append(op_completed(3, 9))
+        elif tail == "start":
+            ops += [op_start(cols), op_write_row([v_bytes(b"second", "str")]), op_finish()]
+        elif tail == "error":
+            ops.append(op_error("ER_NO", b"late"))
+        else:
+            ops += [op_complete_one(1, 1), op_no_more_results()]
+        c = Conv("C06-chain-%s" % tail, mode=["lockstep", "pipelined"][i % 2])
+        c.query("Q", ops)
+        c.ping()
+        c.quit()
+        out.append(c.build())
+    # column flags do not matter in the text protocol: a NULL in a NOT NULL-flagged column still arrives as NULL
+    for i, ty in enumerate([T_LONG, T_VAR_STRING, T_DATETIME, T_DOUBLE]):
+        cols = [col("k", ty, F_NOT_NULL), col("v", T_VAR_STRING, F_NOT_NULL | 2), col("w", T_BLOB)]
+        c = Conv("C06-notnull-%d" % i, mode="lockstep")
+        c.query("Q", [op_start(cols), op_write_row([v_none("u8"), v_myc_null(), v_none("str")]),
+                      op_write_col(v_int("i32", 7)), op_write_col(v_none("str")), op_write_col(v_bytes(b"NULL", "str")), op_end_row(), op_finish()])
+        c.ping()
+        c.quit()
+        out.append(c.build())
+    # durations with a sub-microsecond part (TIME has microsecond precision: truncated or rounded, never malformed)
+    cases = []
+    dummy = col("x", T_VAR_STRING)
+    tcol = col("t", T_TIME)
+    for secs in [0, 1, 59, 3599, 86399, 86400]:
+        for us, ns in [(0, 1), (0, 499), (0, 500), (0, 999), (999999, 1), (999999, 499), (999999, 500), (999999, 999), (5, 500), (123456, 789)]:
+            cases.append({"v": v_dur_ns(secs, us, ns), "col": dummy, "mode": "text"})
+            cases.append({"v": v_dur_ns(secs, us, ns), "col": tcol, "mode": "bin"})
+    out.append({"id": "C06-durns", "kind": "encode", "cases": cases})
+    return out
+
+
+def v_dur_ns(secs, us, ns):
+    """Duration::new(secs, us*1000 + ns): the client may see it truncated or rounded to microseconds"""
+    total_us = secs * 1000000 + us
+    rounded = total_us + (1 if ns >= 500 else 0)
+    return {"k": "dur", "v": [secs, us, ns], "c": {"t": "time", "v": [secs, us], "alt": [rounded // 1000000, rounded % 1000000]}}
+
+
+def c07_wide(rng, tier):
+    """more than 250 columns (the column count needs the 0xFC form), NULL patterns at both ends"""
+    out = []
+    for i, ncol in enumerate([250, 251, 252, 300] if tier == "quick" else [250, 251, 252, 255, 256, 300, 1000]):
+        cols = [col("c%d" % j, T_LONG if j % 2 else T_VAR_STRING) for j in range(ncol)]
+
+        def row(nulls):
+            return [v_none("u8") if j in nulls else (v_int("i32", j - 7) if j % 2 else v_bytes(b"s%d" % j, "str")) for j in range(ncol)]
+        c = Conv("C07-wide3-%d" % ncol, mode="lockstep")
+        c.prepare("S", prep_ok(1, [], cols))
+        c.execute(1, [], [op_start(cols), op_write_row(row(set())), op_write_row(row({0, ncol - 1})), op_write_row(row({5, 6, 7, 8, ncol - 2})), op_finish()])
+        c.ping()
+        c.quit()
+        out.append(c.build())
+    # a MYSQL_TYPE_NULL column carries nothing but NULL
+    from .gens import all_value_kinds
+    cases = []
+    for v in all_value_kinds(rng):
+        if v["c"]["t"] != "null":
+            cases.append({"v": v, "col": col("n", T_NULL), "mode": "bin"})
+    out.append({"id": "C07-nullcol-enc", "kind": "encode", "cases": cases})
+    cols = [col("a", T_LONG), col("n", T_NULL), col("b", T_VAR_STRING)]
+    c = Conv("C07-nullcol", mode="lockstep")
+    c.prepare("S", prep_ok(1, [], cols))
+    c.execute(1, [], [op_start(cols), op_write_row([v_int("i32", 1), v_none("u8"), v_bytes(b"x", "str")]),
+                      op_write_col(v_int("i32", 2)), cont(op_write_col(v_int("i32", 5))), op_write_col(v_myc_null()), op_write_col(v_bytes(b"y", "str")), op_end_row(), op_finish()])
+    c.ping()
+    c.quit()
+    out.append(c.build())
+    # datetimes at midnight with microseconds, and the other length forms of the binary encoding
+    cases = []
+    for ty in (T_DATETIME, T_TIMESTAMP):
+        for (h, mi, s, us) in [(0, 0, 0, 0), (0, 0, 0, 1), (0, 0, 0, 123), (0, 0, 0, 999999), (0, 0, 1, 0), (0, 1, 0, 0), (1, 0, 0, 0), (0, 0, 1, 5), (23, 59, 59, 999999)]:
+            for (y, m, d) in [(2020, 2, 29), (1, 1, 1), (9999, 12, 31)]:
+                cases.append({"v": v_datetime(y, m, d, h, mi, s, us), "col": col("d", ty), "mode": "bin"})
+                cases.append({"v": v_myc_date(y, m, d, h, mi, s, us), "col": col("d", ty), "mode": "bin"})
+    for (secs, us) in [(0, 0), (0, 1), (0, 999999), (1, 0), (86400, 0), (86400, 7), (3020399, 999999)]:
+        cases.append({"v": v_dur(secs, us), "col": col("t", T_TIME), "mode": "bin"})
+    out.append({"id": "C07-dtforms-enc", "kind": "encode", "cases": cases})
+    return out
+
+
+# ------------------------------------------------------------------------------------------------
+def c08_extra(rng, tier):
+    """the flags byte and the iteration count of COM_STMT_EXECUTE carry nothing this server negotiated:
+    whatever they hold, the parameter block starts right behind them"""
+    from .gens import rand_param
+    out = []
+    flagsets = [0x00, 0x01, 0x02, 0x04, 0x08, 0x09, 0x10, 0x80, 0xff]
+    for i, fl in enumerate(flagsets):
+        c = Conv("C08-flags-%02x" % fl, mode=["lockstep", "pipelined"][i % 2])
+        ps = [p_int(T_TINY, 5), p_int(T_LONG, 1234567), p_bytes(T_VAR_STRING, b"abc"), p_null(T_LONG)]
+        c.prepare("S", prep_ok(1, [col("p%d" % k, p["ty"]) for k, p in enumerate(ps)], []))
+        c.cmd(com_execute(1, ps, True, flags=fl, iterations=[1, 0, 7, 2 ** 32 - 1][i % 4]))
+        c.programs.append([op_completed(1, 0)])
+        ps2 = [rand_param(rng, p["ty"], allow_null=False) for p in ps]
+        c.cmd(com_execute(1, ps2, False, flags=fl))
+        c.programs.append([op_completed(2, 0)])
+        c.prepare("T", prep_ok(2, [col("q", T_LONGLONG)], []))
+        c.cmd(com_execute(2, [p_int(T_LONGLONG, -9)], True, flags=fl))
+        c.programs.append([op_completed(3, 0)])
+        c.ping()
+        c.quit()
+        out.append(c.build())
+    return out
+
+
+def c10_extra(rng, tier):
+    out = []
+    # long data for a statement that is closed without ever being executed; the id (or another one) is then
+    # prepared again: nothing of the old incarnation may show up
+    for i, (a, b_) in enumerate([(1, 1), (1, 2), (7, 7), (2 ** 32 - 1, 3)]):
+        c = Conv("C10-closepend-%d" % i, mode=["lockstep", "pipelined"][i % 2])
+        c.prepare("A", prep_ok(a, [col("p", T_BLOB)], []))
+        c.cmd(com_long_data(a, 0, b"stale"))
+        c.cmd(com_close(a))
+        c.prepare("B", prep_ok(b_, [col("p", T_BLOB), col("q", T_LONG)], []))
+        c.execute(b_, [p_bytes(T_BLOB, b"fresh"), p_int(T_LONG, 3)], [op_completed(1, 0)])
+        c.execute(b_, [p_bytes(T_BLOB, b"again"), p_int(T_LONG, 4)], [op_completed(2, 0)], rebind=False)
+        c.ping()
+        c.quit()
+        out.append(c.build())
+    # several open statements; one that is not the highest id is closed; all others stay usable
+    for i, ids in enumerate([[1, 2, 3, 4], [5, 1, 9, 3, 7], [2 ** 32 - 1, 1, 2], [10, 20, 30, 40, 50, 60]]):
+        for close_at in ([0, 1] if tier == "quick" else range(len(ids) - 1)):
+            c = Conv("C10-many-%d-%d" % (i, close_at), mode="lockstep")
+            for s in ids:
+                c.prepare("S%d" % s, prep_ok(s, [col("p", T_LONG)], []))
+            c.cmd(com_close(sorted(ids)[close_at]))
+            for s in sorted(ids, reverse=True):
+                if s != sorted(ids)[close_at]:
+                    c.execute(s, [p_int(T_LONG, s % 1000)], [op_completed(1, 0)])
+                    c.cmd(com_long_data(s, 0, b"ld"))
+            c.ping()
+            c.quit()
+            out.append(c.build())
+    # the id 0xFFFFFFFF is an id like any other: unknown until prepared, and then only itself
+    c = Conv("C10-maxid-unknown", mode="lockstep")
+    c.prepare("S", prep_ok(5, [col("p", T_LONG)], []))
+    c.execute(5, [p_int(T_LONG, 1)], [op_completed(1, 0)])
+    c.cmd(com_execute(2 ** 32 - 1, [p_int(T_LONG, 2)]))
+    out.append(c.build())
+    c = Conv("C10-maxid-longdata", mode="lockstep")
+    c.prepare("S", prep_ok(5, [col("p", T_BLOB)], []))
+    c.cmd(com_long_data(2 ** 32 - 1, 0, b"x"))
+    c.ping()
+    out.append(c.build())
+    c = Conv("C10-maxid-own", mode="lockstep")
+    c.prepare("S", prep_ok(2 ** 32 - 1, [col("p", T_LONG)], []))
+    c.prepare("T", prep_ok(6, [col("a", T_BLOB), col("b", T_BLOB)], []))
+    c.execute(2 ** 32 - 1, [p_int(T_LONG, 77)], [op_completed(1, 0)])
+    c.cmd(com_long_data(6, 1, b"for six"))
+    c.execute(2 ** 32 - 1, [p_int(T_LONG, 78)], [op_completed(2, 0)], rebind=False)
+    c.execute(6, [p_bytes(T_BLOB, b"a"), p_long(T_BLOB)], [op_completed(3, 0)])
+    c.cmd(com_close(2 ** 32 - 1))
+    c.execute(6, [p_bytes(T_BLOB, b"b"), p_bytes(T_BLOB, b"c")], [op_completed(4, 0)])
+    c.ping()
+    c.quit()
+    out.append(c.build())
+    return out
+
+
+def c13_hs(rng, tier):
+    """errors reach clients of every handshake layout in the same (4.1) form"""
+    out = []
+    kinds = ["ER_NO", "ER_PARSE_ERROR", "ER_BAD_DB_ERROR", "ER_DUP_ENTRY"]
+    for i, hs in enumerate([handshake320(b"old"), handshake320(b"", caps=0x0001), handshake41(b"new", caps=0x0200), handshake41(b"x", caps=0xa200 | 0x8)]):
+        c = Conv("C13-hs-%d" % i, mode="lockstep", hs=hs)
+        c.query("Q", [op_error(kinds[i % 4], b"first")])
+        c.prepare("P", prep_err(kinds[(i + 1) % 4], b"second"))
+        c.init_db("db", [op_init_err(kinds[(i + 2) % 4], b"third")])
+        c.query("R", [op_start([col("a", T_LONG)]), op_write_row([v_int("i32", 1)]), op_finish_error(kinds[(i + 3) % 4], b"fourth")])
+        c.ping()
+        c.quit()
+        out.append(c.build())
+    return out
+
+
+def c17_extra(rng, tier):
+    """long data far beyond 64 MiB over the lifetime of one statement, never more than one chunk pending"""
+    out = []
+    c = GB.BigConv("C17-lifetime", mode="lockstep")
+    c.small(com_prepare("S"))
+    c.prepares.append({"id": le4(4), "params": [GB.rcol("p"), GB.rcol("q", T_LONG)], "cols": []})
+    for k in range(6 if tier == "quick" else 12):
+        n = GB.PM - 7 - 100 + k          # one maximal packet each
+        c.cmd_runs(GB.canon([[x, 1] for x in [0x18] + le4(4) + [0, 0]] + GB.pattern(n, k)), 0, reply=False)
+        c.small(com_execute(4, [p_long(T_BLOB), p_int(T_LONG, k)], rebind=(k == 0)))
+        c.programs.append([op_completed(k, 0)])
+    c.small(com_ping())
+    c.small(com_quit())
+    out.append(c.build())
+    return out
+
+
+def c18_extra(rng, tier):
+    """client certificate chains of more than one certificate"""
+    from .gens import tls_conv
+    out = []
+    for i, n in enumerate([2, 3]):
+        for mode in ("lockstep", "pipelined"):
+            c = tls_conv("C18-chain%d-%s" % (n, mode), rng, mode=mode, cert=True, server_cert_req=True, ncmd=2)
+            sc = c.build()
+            sc["client"]["cert_chain"] = n
+            out.append(sc)
+    return out
+
+
+def c19_flush_faults(probe):
+    """a response of more than 255 packets: a one-off failure of every single flush must be reported"""
+    out = []
+    c = Conv("C19-wrap", mode="lockstep")
+    cols = [col("a", T_LONG)]
+    c.query("Q", [op_start(cols)] + [op_write_row([v_int("i32", r)]) for r in range(300)] + [op_finish()])
+    c.ping()
+    c.quit()
+    base = c.build()
+    counts = probe([base])[base["id"]]
+    import copy
+    for k in range(counts["fl"] + 2):
+        for kind in ("oneoff", "persistent"):
+            s2 = copy.deepcopy(base)
+            s2["id"] = "C19-wrap-fl-%s-%d" % (kind[0], k)
+            s2["transport"]["fault"] = {"on": "flush", "at": k, "kind": kind, "err": "BrokenPipe"}
+            s2["meta"] = {"conv": base["id"], "fault": kind, "at": k}
+            out.append(s2)
+    return [base] + out
+
+
+def _lenenc_bytes(n):
+    if n < 251:
+        return [n]
+    if n < 65536:
+        return [252, n & 255, n >> 8]
+    if n < (1 << 24):
+        return [253, n & 255, (n >> 8) & 255, n >> 16]
+    return [254] + [(n >> (8 * k)) & 255 for k in range(8)]
+
+
+def big_execute(stmt, params):
+    """payload runs of a COM_STMT_EXECUTE with new-params-bound = 1; params: ('blob', runs) | ('long', int) | ('null',)"""
+    np_ = len(params)
+    bl = (np_ + 7) // 8
+    nullmap = [0] * bl
+    types = []
+    vals = []
+    for j, p in enumerate(params):
+        if p[0] == 'null':
+            nullmap[j // 8] |= 1 << (j % 8)
+            types += [T_BLOB, 0]
+        elif p[0] == 'blob':
+            types += [T_BLOB, 0]
+            vals += [[x, 1] for x in _lenenc_bytes(GB.runs_len(p[1]))] + [list(r) for r in p[1]]
+        else:
+            types += [T_LONG, 0]
+            vals += [[x, 1] for x in le4(p[1])]
+    head = [0x17] + le4(stmt) + [0] + le4(1) + nullmap + [1] + types
+    return GB.canon([[x, 1] for x in head] + vals)
+
+
+def c08_big(rng, tier):
+    """inline parameters of 2^24 bytes and more (a multi-packet COM_STMT_EXECUTE): delivered intact, with the
+    parameters behind them"""
+    out = []
+    shapes = [[('blob', GB.pattern(1 << 24, 1)), ('long', 42)],
+              [('long', 7), ('blob', GB.pattern((1 << 24) - 1, 2)), ('null',), ('blob', GB.pattern(3, 3))],
+              [('blob', GB.pattern(5, 4)), ('blob', GB.pattern((1 << 24) + 70000, 5))]]
+    if tier != "quick":
+        shapes.append([('blob', GB.pattern(2 * GB.PM + 11, 6)), ('long', -1 & 0xffffffff)])
+    for i, ps in enumerate(shapes):
+        c = GB.BigConv("C08-biginline-%d" % i, mode=["lockstep", "pipelined"][i % 2])
+        c.small(com_prepare("S"))
+        c.prepares.append({"id": le4(3), "params": [GB.rcol("p%d" % j, T_BLOB if p[0] != 'long' else T_LONG) for j, p in enumerate(ps)], "cols": []})
+        c.cmd_runs(big_execute(3, ps), 0)
+        c.programs.append([op_completed(1, 0)])
+        c.small(com_ping())
+        c.small(com_quit())
+        out.append(c.build())
+    return out
